@@ -134,7 +134,8 @@ PROPERTIES = {
                        "unconditionally, for the signed families OUTSIDE the region of the known finding F-C07-div-euclid (plain quotient representable, "
                        "correction constant representable), where the result is the Euclidean quotient reduced modulo 2^w with the exact overflow flag; "
                        "Kani re-checks all forms on 8-bit layouts outside that region and shows the region reachable",
-        "bounded_parts": ["saturating_div_euclid (closure): 8-bit layouts only (Kani); the signed checked_rem_euclid_int (closure inside Option::map) is now under a Verus contract at every width (unit remint: Some(r) exactly when the "
+        "bounded_parts": ["saturating_div_euclid (zero-argument closure in unwrap_or_else) is under a Verus contract at every width since session 4 (unit diveuclid: the clamp of the Euclidean quotient; unsigned unconditionally, signed outside the region "
+                          "of the known finding); the signed checked_rem_euclid_int (closure inside Option::map) is now under a Verus contract at every width (unit remint: Some(r) exactly when the "
                           "Euclidean remainder fits, r exact; the closure carries a ghost contract through the `closure` directive - annotations only); "
                           "inside the region of F-C07-div-euclid the signed Euclidean-division forms are not under a Verus contract"],
         "assumptions": ["R15: the non-short-circuit `overflow | overflow2` on two bool locals in overflowing_div_euclid is rendered as `||` (Verus has no `|` on bool)"],
